@@ -77,6 +77,16 @@ class ExcVal:
         return f"Exc({self.cls}{'' if self.exact else '+'})"
 
 
+class ExcType:
+    """type(exc) of a raised exception known by (a super-)class name: the exact class may be that class or a proper subclass of it."""
+
+    def __init__(self, cls: str):
+        self.cls = cls
+
+    def __repr__(self):
+        return f"type(Exc({self.cls}))"
+
+
 class FuncVal:
     """A resolved repository function or class."""
 
